@@ -52,13 +52,13 @@ func (f *Mapl) Call(s *slip.Scope, args slip.List, depth int) (result slip.Objec
 
 	pos++
 	list, ok := args[pos].(slip.List)
-	if !ok {
+	if !ok && args[pos] != nil {
 		slip.TypePanic(s, depth, "lists", args[pos], "list")
 	}
 	min := len(list)
 	var l2 slip.List
 	for i := 1; i < len(args); i++ {
-		if l2, ok = args[i].(slip.List); !ok {
+		if l2, ok = args[i].(slip.List); !ok && args[i] != nil {
 			slip.TypePanic(s, depth, "lists", args[i], "list")
 		}
 		if len(l2) < min {
@@ -68,12 +68,12 @@ func (f *Mapl) Call(s *slip.Scope, args slip.List, depth int) (result slip.Objec
 	ca := make(slip.List, len(args)-1)
 	for n := 0; n < min; n++ {
 		for i := 1; i < len(args); i++ {
-			l2 := args[i].(slip.List)
+			l2, _ := args[i].(slip.List)
 			ca[i-1] = l2[n:]
 		}
 		if r := caller.Call(s, ca, d2); slip.IsExit(r) {
 			return r
 		}
 	}
-	return list
+	return args[pos]
 }
